@@ -557,7 +557,7 @@ void check_all(Ctx &c) {
 }
 
 // ------------------------------------------------------------------ budgets, settle
-uint64_t op_budget(const Ctx &c) { return 200000ull + 4000ull * c.budget_bytes; }
+uint64_t op_budget(const Ctx &c) { update_fatal_ctx(c); return 200000ull + 4000ull * c.budget_bytes; }
 
 template <class V, class F> static void each(V &v, F &&f) { for (auto *o : v) f(*o); }
 template <class F> static void each_obj(Ctx &c, F &&f) {
@@ -565,12 +565,13 @@ template <class F> static void each_obj(Ctx &c, F &&f) {
 }
 
 bool settle(Ctx &c, const Op &op, ExcKind ex, unsigned allowed) {
-    bool fired = simrt::heap_fault_fired();
+    bool fired = c.fired;
     if (c.stats) {
         if (op.fault & F_ALLOC) { c.stats->faults_alloc_planned++; if (fired) c.stats->faults_alloc_fired++; }
         if (op.fault & F_CORRUPT) { c.stats->faults_corrupt_planned++; if (ex != EX_NONE && ex != EX_BAD_ALLOC) c.stats->faults_corrupt_thrown++; }
     }
     c.sig.u8((uint8_t)(0xE0 + ex));
+    if (fired && (op.fault & F_CORRUPT)) probe(c, PR_FAULT_EXCEPTION_CTOR);
     if (ex == EX_NONE) {
         if (fired) set_viol(c, "bad_alloc_not_propagated", "an allocation failed inside the operation but it returned normally");
         each_obj(c, [](ObjBase &o) { if (o.role == ROLE_TARGET || o.role == ROLE_RVALUE) o.ptr_known = false; });
@@ -587,6 +588,10 @@ bool settle(Ctx &c, const Op &op, ExcKind ex, unsigned allowed) {
     if (fired) {
         set_viol(c, "bad_alloc_not_propagated", std::string("an allocation failed inside the operation but ") + exc_name(ex) + " reached the caller instead of std::bad_alloc");
         return false;
+    }
+    if (ex == EX_UNICODE && !(allowed & bit(ex))) {
+        // an operation may reject a string operand that is itself not well-formed UTF-8 (e.g. replace() re-validates)
+        for (auto *o : c.strs) if (o->role != ROLE_NONE && !strict_utf8(o->model.data(), o->model.size())) allowed |= bit(EX_UNICODE);
     }
     if (!(allowed & bit(ex))) {
         set_viol(c, "unexpected_exception", std::string(exc_name(ex)) + " thrown by an operation whose inputs are valid");
